@@ -8,7 +8,7 @@ from ..boot import CTX, M, priv, HarnessError
 PROP = 'C14'
 LEVEL = 'exploration'
 OWN = ('message_misattributed', 'message_from_non_member', 'blackhole_not_detected', 'pair_not_reconnected', 'probe_not_delivered',
-       'connected_flag_mismatch', 'duplicate_live_connection')
+       'connected_flag_mismatch', 'duplicate_live_connection', 'stranger_disturbs_tick')
 INVARIANTS = OWN
 for _i in OWN:
     INV_PROP[_i] = PROP
@@ -45,6 +45,21 @@ class ProbeTap(object):
             self.o.on_any(dst, node, msg)
 
 
+_FAKE_AE = {'type': 'append_entries', 'term': 10 ** 6, 'commit_index': 1, 'entries': [], 'prevLogIdx': 1, 'prevLogTerm': 0}
+STRANGER_MESSAGES = {
+    'dict': [dict(_FAKE_AE), dict(_FAKE_AE)],                       # a protocol message without the handshake
+    'empty_list': [[], dict(_FAKE_AE)],
+    'nested_list': [[['status'], 1], dict(_FAKE_AE)],               # utility-style list whose command is not hashable
+    'unknown_command': [['no_such_command', 1, 2], dict(_FAKE_AE)],
+    'int': [12345, dict(_FAKE_AE)],
+    'bytes': [b'10.0.0.1:4001', dict(_FAKE_AE)],
+    'tuple': [('10.0.0.1:4001',), dict(_FAKE_AE)],
+    'unknown_address': ['10.9.9.9:4999', dict(_FAKE_AE)],
+    'none_then_dict': [None, dict(_FAKE_AE)],
+    'set': [set([1, 2]), dict(_FAKE_AE)],
+}
+
+
 class C14App(KVApp):
     def apply_event(self, world, ev):
         if ev[1] == 'probe':
@@ -64,6 +79,36 @@ class C14App(KVApp):
             if world.oracle is not None:
                 world.oracle.probes_sent[pid] = (src, dst, ok)
             return ('sent' if ok else 'notconnected', src)
+        if ev[1] == 'stranger':
+            # a process that is no member (a port scanner, a monitoring probe, a node of another cluster, an admin
+            # tool of another version) on the same machine connects to the node's port and sends well-formed frames
+            # whose first message is not a member address: nothing of it may reach SyncObj, and nothing may escape
+            # the node's tick
+            dst, kind = ev[2], ev[3]
+            h = world.hosts[dst]
+            if h.node is None:
+                return 'down'
+            from .c13 import encode
+            net = world.net
+            from ..net import SimSocket
+            sock = SimSocket(net, dst)
+            try:
+                sock.connect(('10.0.0.%d' % (dst + 1), 4001 + dst))
+            except BlockingIOError:
+                pass
+            cid = sock.conn.cid
+            if net.resolve_connect(cid, 'ok') != 'ok':
+                return 'refused'
+            msgs = STRANGER_MESSAGES[kind]
+            for m in msgs:
+                try:
+                    sock.send(encode(m))
+                except (BlockingIOError, OSError):
+                    break
+            net.deliver(sock.tx.pid, 0)
+            h.extra.setdefault('strangers', []).append(sock)
+            world.fault('stranger_connection')
+            return ('ok', dst)
         if ev[1] == 'mrem':
             h = world.hosts[ev[2]]
             if h.node is None:
@@ -101,6 +146,15 @@ class C14Oracle(RaftOracle):
         if sent is not None and sent[1] != dst:
             self.flag('message_misattributed', 'probe %r sent by host %d to host %d was delivered to host %d' % (msg['id'], sent[0], sent[1], dst))
 
+    def after_event(self, ev, out, touched):
+        w = self.w
+        if ev[1] == 'tick' and isinstance(out, str) and out.startswith('exc:') and w.hosts[ev[2]].extra.get('strangers'):
+            e = w.tick_exc[-1]
+            if 'transport.py' in str(e[3]):
+                self.flag('stranger_disturbs_tick', 'host %d: an exception escaped the tick while the first message of a non-member connection was handled: %s at %s' % (
+                    e[1], e[2], e[3]), dict(origin=e[3]))
+        RaftOracle.after_event(self, ev, out, touched)
+
     def on_any(self, dst, node, msg):
         """Every message the transport hands to SyncObj must be attributed to a node of the receiver's current node set."""
         n = self.w.hosts[dst].node
@@ -122,6 +176,8 @@ class C14Sched(Scheduler):
             items.append((self.s.get('w_probe', 0.2), 'probe'))
             if self.s.get('w_cut', 0) > 0 and not w.cuts:
                 items.append((self.s['w_cut'], 'cut'))
+        if ups and self.s.get('w_stranger', 0) > 0:
+            items.append((self.s['w_stranger'], 'stranger'))
 
     def build_extra(self, k, dt):
         w, rng = self.w, self.rng
@@ -134,6 +190,8 @@ class C14Sched(Scheduler):
         if k == 'cut':
             a, b = rng.sample(range(len(w.hosts)), 2)
             return [dt, 'cut', a, b]
+        if k == 'stranger':
+            return [dt, 'stranger', rng.choice(ups), rng.choice(sorted(STRANGER_MESSAGES))]
         return Scheduler.build_extra(self, k, dt)
 
 
@@ -181,6 +239,7 @@ class C14Spec(c01.C01Spec):
         s['w_kill'] = rng.choice([0.0, 0.01])
         s['w_start'] = rng.choice([0.05, 0.5])
         s['w_probe'] = rng.choice([0.1, 0.4])
+        s['w_stranger'] = rng.choice([0.0, 0.01, 0.03])
         s['w_heal'] = 0.03
         cfg['stale_replace_phase'] = True
         if cfg['n_voters'] >= 3 and rng.random() < 0.5:
